@@ -51,10 +51,11 @@ ALIAS = {            # (x1, x2, out) as indices into the three allocated element
 EXOTIC = ('float16', 'float128', '>f8', '>f4', '>f2')      # floating, legal, never BLAS
 
 
-def dtinfo(dtype):
-    """Coq literal of what the dispatch can see of a dtype: character code of dtype.char, native byte order."""
+def dtinfo(dtype, shape):
+    """Coq literal of what the dispatch can see of an array besides contiguity: character code of dtype.char,
+    native byte order, len() = length of axis 0."""
     d = np.dtype(dtype)
-    return '(mkdt %d %s)' % (ord(d.char), C.b(bool(d.isnative)))
+    return '(mkdt %d %s %d)' % (ord(d.char), C.b(bool(d.isnative)), int(shape[0]) if len(shape) else 1)
 
 
 def lit(carrier, v):
@@ -163,7 +164,7 @@ def lincomb_case(rng, dtype, shape, layouts, alias, a, b, poison, full=False):
     for k in range(3):
         if big:
             small = n < BIG
-            g = (rng.choice([1, 2, 3, 5]), rng.randint(0, 6), rng.choice([3, 4] if small else [13, 7, 5]), rng.randint(1, 3))
+            g = (rng.choice([1, 2, 3, 5]), rng.randint(0, 6), rng.choice([3, 4] if small else [7, 5]), rng.randint(1, 3))
             v = closed_form(n, *g).astype(float).reshape(shape)
             if base == 'cx':
                 g2 = (rng.choice([1, 2, 3]), rng.randint(0, 4), rng.choice([2, 3] if small else [7, 5]), 1)
@@ -201,7 +202,7 @@ def lincomb_case(rng, dtype, shape, layouts, alias, a, b, poison, full=False):
     assert res is els[iout]
     after = [np.asarray(e.data) for e in els]
 
-    PAT = 455
+    PAT = 35
     sized = n >= BIG and full is False
     if sized:       # one period suffices if every array (before and after) is periodic
         for arr in before + after:
@@ -218,14 +219,14 @@ def lincomb_case(rng, dtype, shape, layouts, alias, a, b, poison, full=False):
         if is_before and k in poisoned:
             return '(cyc %d [None])' % n
         # after: one period if the array is periodic, the full literal otherwise
-        for period in (12, 455, 455 * 4):
+        for period in (12, 35, 455, 455 * 4):
             pat = flat[:period]
             if np.array_equal(np.resize(pat, n), flat, equal_nan=True):
                 return '(cyc %d %s)' % (n, lits(carrier, pat))
         return lits(carrier, flat)
 
     term = ('mkL %s %s %s (%d, %d, %d)%%nat %d %s %s [%s] [%s]'
-            % (C.b(fl), dtinfo(dtype),
+            % (C.b(fl), dtinfo(dtype, shape),
                '[' + '; '.join('(%s, %s)' % (C.b(c), C.b(f)) for c, f in flags) + ']',
                ix1, ix2, iout, n if sized else 0, lit(carrier, pa), lit(carrier, pb),
                '; '.join(buf_term(k, before[k], True) for k in range(3)),
@@ -280,7 +281,7 @@ def lincomb_cases(rng, tier, S):
     quick = tier == 'quick'
     small = [(1,), (2,), (3,), (99,), (3, 4), (2, 3, 2)]
     med = [(100,), (101,), (10, 10), (4, 5, 5), (20, 6), (1000,)]
-    edge = [(49999,), (50001,), (250, 200), (4999,)]
+    edge = [(49999,), (50001,), (250, 200), (4999,), (60000, 2), (2, 60000), (50000, 1)]
     if not quick:
         small += [(7, 14), (98,), (5,)]
         med += [(128,), (30, 40), (2, 50)]
@@ -307,7 +308,8 @@ def lincomb_cases(rng, tier, S):
             for alias in ALIAS:
                 for j, (a, b) in enumerate(rng.sample(pairs, nb)):
                     # the whole 50000-entry arrays are evaluated inside Coq for one case per alias pattern
-                    run((50000,), alias, a, b, want_blas=True, full=(j == 0 and main))
+                    run((50000,), alias, a, b, want_blas=True,
+                        full=(j == 0 and main and (not quick or alias in ('distinct', 'out_is_x1'))))
             if main or not quick:
                 for shape in edge:
                     for alias in ALIAS:
@@ -390,7 +392,7 @@ def rand_leaf_vals(rng, r, kind):
     n = int(np.prod(shape))
     base = DT[dtype][0]
     if n >= PERIODIC:
-        g = (rng.choice([1, 2, 3, 5]), rng.randint(0, 6), rng.choice([3, 4] if n < BIG else [13, 7, 5]), rng.randint(1, 3))
+        g = (rng.choice([1, 2, 3, 5]), rng.randint(0, 6), rng.choice([3, 4] if n < BIG else [7, 5]), rng.randint(1, 3))
         v = closed_form(n, *g).astype(float)
         if kind == 'div':
             v = np.where(v == 0, 2.0, v)
@@ -402,7 +404,7 @@ def rand_leaf_vals(rng, r, kind):
         v = np.array([float(rng.randint(-6, 6)) for _ in range(n)])
     v = v.reshape(shape)
     if base == 'cx' and kind != 'div':
-        w = np.array([float(rng.randint(-2, 2)) for _ in range(n if n < PERIODIC else (12 if n < BIG else 455))])
+        w = np.array([float(rng.randint(-2, 2)) for _ in range(n if n < PERIODIC else (12 if n < BIG else 35))])
         v = v + 1j * np.resize(w, n).reshape(shape)
     return v
 
@@ -456,7 +458,7 @@ class Ctx(object):
             arr = np.full(arr.shape, np.nan if self.poison else 0, dtype=complex if arr.dtype.kind == 'c' else float)
         self.init.append(arr)
         self.flags.append(flags_of(t.data))
-        self.bdt.append(dtinfo(t.data.dtype))
+        self.bdt.append(dtinfo(t.data.dtype, t.data.shape))
         return len(self.objs) - 1
 
     def term(self, el, fresh=False):
@@ -492,7 +494,7 @@ class Ctx(object):
         else:
             self.init.append(np.full(t.data.shape, np.nan if self.poison else 0, dtype=kind))
         self.flags.append((True, t.data.ndim <= 1))
-        self.bdt.append(dtinfo(t.data.dtype))
+        self.bdt.append(dtinfo(t.data.dtype, t.data.shape))
         return '(Leaf %d)' % (len(self.objs) - 1)
 
 
@@ -500,7 +502,7 @@ def compress(carrier, flat):
     flat = np.asarray(flat).ravel()
     n = flat.size
     if n >= PERIODIC:
-        for period in (1, 12, 455, 1820):
+        for period in (1, 12, 35, 455, 1820):
             if np.array_equal(np.resize(flat[:period], n), flat, equal_nan=True):
                 return '(cyc %d %s)' % (n, lits(carrier, flat[:period]))
     return lits(carrier, flat)
@@ -1379,12 +1381,34 @@ def _large_family(out, rng, quick, full=False):
                        seed=rng.randint(0, 10 ** 6), nan_out=False)
 
 
+def _nd_family(out, rng, quick):
+    """N-d shapes with every combination of {long, short} first / last axis around the two thresholds: `size`
+    must be the number of entries (not len() = the first axis) for the dispatch and for the BLAS vector length."""
+    shapes = [(60000, 2), (2, 60000), (50000, 1), (1, 50000), (250, 200), (200, 250), (100, 1), (1, 100), (99, 2), (2, 99),
+              (50, 2), (49999, 2), (25000, 2, 1)]
+    dts = ['float64', 'complex128', 'float32'] if quick else ['float64', 'float32', 'complex128', 'complex64', 'float16', '>f8']
+    for dtype in dts:
+        base = DT[str(np.dtype(dtype))][0]
+        pairs = [pr for pr in (CX_PAIRS if base == 'cx' else REAL_PAIRS) if pr[0] != 0 and pr[1] != 0]
+        for shape in shapes:
+            for lay in (('CCC', 'FFF') if (quick and dtype != 'float64') else ('CCC', 'FFF', 'CFC', 'FCF')):
+                for alias in ALIAS:
+                    nan_out = alias in ('distinct', 'x1_is_x2')
+                    a, b = rng.choice(pairs)
+                    _probe(out, 'lincomb-nd-%s-%s-%s-%s' % ('x'.join(map(str, shape)), lay, alias, dtype),
+                           'space.lincomb(%r, x1, %r, x2, out) on %s%r layouts %s, alias %s%s (whole array vs a*x1+b*x2 on copies)'
+                           % (a, b, dtype, shape, lay, alias, ', out NaN-filled' if nan_out else ''),
+                           'lincomb', dtype=dtype, shape=list(shape), layouts=lay, alias=alias, a=a, b=b,
+                           seed=rng.randint(0, 10 ** 6), nan_out=nan_out)
+
+
 def search(rng, broken):
     """The translator or a proof broke: run the large-array family over the full dtype / layout / alias
     list (and the integer and data-operand families through the thorough probes of the driver) to obtain a
     concrete input on which the property itself fails."""
     known = C.load_findings(PID)
     found = []
+    _nd_family(found, rng, quick=False)
     _large_family(found, rng, quick=False, full=True)
     for pr in found:
         if not pr.ok and pr.key not in known:
@@ -1417,6 +1441,7 @@ def probes(rng, tier):
                            'other operands bit-identical' % (a, b, dtype, shape, lay, alias),
                            'lincomb', dtype=dtype, shape=list(shape), layouts=lay, alias=alias, a=a, b=b,
                            seed=rng.randint(0, 10 ** 6), nan_out=bool(nan_out))
+    _nd_family(out, rng, quick)
     _large_family(out, rng, quick)
     # 1c. integer dtypes around the 100-entry switch, all alias patterns, scalars that use both operands
     for dtype in ('int64', 'int32'):
@@ -1561,8 +1586,8 @@ RULE = ('tensor level: space.lincomb(a, x1, b, x2, out) on tensor spaces; every 
         'C / F / strided / mixed layouts, plus a fixed list of >= 50000-entry cases for which BLAS is NOT applicable '
         '(strided out / operand, mixed C/F order, float16, float128) with every alias pattern.  Arrays of >= 100 '
         'entries are periodic (closed form); from 2000 entries on Coq evaluates the model with the true size on one '
-        'period (Python first checks that every buffer before and after the call is periodic) except for one '
-        'whole-array case per alias pattern and main dtype; the same with NaN in every buffer the call must not read and with NaN '
+        'period of 35 entries (Python first checks that every buffer before and after the call is periodic) except '
+        'for whole-array cases of the main dtypes (two alias patterns in quick, all five in thorough); the same with NaN in every buffer the call must not read and with NaN '
         'inside an operand (poisoned carrier option Q).  space level: 32 public operations (lincomb with and without '
         'b, multiply, divide, assign, copy, set_zero, + - * / with element and scalar, reflected and in-place forms, '
         'neg, pos, **=, ** with positive and negative exponents, no-out and element-method forms), every binary '
